@@ -2488,7 +2488,8 @@ namespace chaiscript {
               switch (m_operators[t_precedence]) {
                 case (Operator_Precedence::Ternary_Cond):
                   if (Symbol(":")) {
-                    if (!Operator(t_precedence + 1)) {
+                    // the conditional operator associates to the right: `a ? b : c ? d : e` is `a ? b : (c ? d : e)`
+                    if (!Operator(t_precedence)) {
                       throw exception::eval_error("Incomplete '" + oper + "' expression",
                                                   File_Position(m_position.line, m_position.col),
                                                   *m_filename);
